@@ -9,6 +9,7 @@ CONSTANTS
   HookCurrent = TRUE
   SwapGuarded = TRUE
   SupervisorOrClosed = TRUE
+  RetryByEpoch = TRUE
   AllowClose = TRUE
 VIEW View
 INVARIANTS TokenPerDial NoStreamDetached CallersSurvive NotificationsOnce NoPanic NoDialAfterClose NoCallerParkedWhenClosed NoSupervisorParkedWhenClosed SilentAfterDisconnect
